@@ -169,6 +169,9 @@ int vf_spawn (void (*fn) (void *), void *arg) {
 	memset (f, 0, sizeof (*f));
 	f->stack_size = STACK_SIZE;
 	f->stack = (char *) mmap (NULL, STACK_SIZE, PROT_READ | PROT_WRITE, MAP_PRIVATE | MAP_ANONYMOUS, -1, 0);
+	/* poison the part of the stack the library will use: an uninitialised local (e.g. an out-parameter that a failed
+	   posix_memalign leaves untouched) then holds a wild pointer instead of a convenient zero */
+	if (f->stack != (char *) MAP_FAILED) { size_t top = STACK_SIZE > (64u << 10) ? (64u << 10) : STACK_SIZE; memset (f->stack + STACK_SIZE - top, 0xA5, top); }
 	getcontext (&f->ctx);
 	f->ctx.uc_stack.ss_sp = f->stack; f->ctx.uc_stack.ss_size = STACK_SIZE; f->ctx.uc_link = NULL;
 	makecontext (&f->ctx, fiber_main, 0);
@@ -482,6 +485,31 @@ void *vf_malloc (size_t n, const char *func) {
 	vf_log ("malloc %s %s", vf_name_of (p) != NULL ? vf_name_of (p) : "anon", func);
 	return (p);
 }
+/* calloc / aligned_alloc / memalign / posix_memalign: same failure switch and bookkeeping; the object kind is
+   recognised by its size when the caller is a helper and not the constructor itself */
+static void *vf_alloc_other (size_t n, size_t al, const char *func) {
+	char *p;
+	nsync_mallocs++;
+	if ((cfg.fail_malloc_at != 0 && nsync_mallocs == cfg.fail_malloc_at) || (cfg.fail_malloc_from != 0 && nsync_mallocs >= cfg.fail_malloc_from)) {
+		vf_log ("malloc NULL %s", func);
+		return (NULL);
+	}
+	if (al > 64) { p = (char *) vf_arena_alloc (n + al); p += (al - ((uintptr_t) p % al)) % al; } else { p = (char *) vf_arena_alloc (n); }
+	if (n == sizeof (waiter)) { reg_obj (p, n, K_WAITER, vf_next_index (K_WAITER)); }
+	else if (n == sizeof (struct nsync_note_s_)) { reg_obj (p, n, K_NOTE, vf_next_index (K_NOTE)); }
+	else if (n == sizeof (struct vf_counter_layout)) { reg_obj (p, n, K_CTR, vf_next_index (K_CTR)); }
+	else if (has (func, "nsync_wait_n")) { reg_obj (p, n, K_NWARR, vf_next_index (K_NWARR)); }
+	vf_log ("malloc %s %s", vf_name_of (p) != NULL ? vf_name_of (p) : "anon", func);
+	return (p);
+}
+void *vf_calloc (size_t k, size_t n, const char *func) { void *p = vf_alloc_other (k * n, 0, func); if (p != NULL) { memset (p, 0, k * n); } return (p); }
+void *vf_aligned_alloc (size_t al, size_t n, const char *func) { return (vf_alloc_other (n, al, func)); }
+int vf_posix_memalign (void **pp, size_t al, size_t n, const char *func) {
+	void *p = vf_alloc_other (n, al, func);
+	if (p == NULL) { return (ENOMEM); } /* *pp is left untouched, as glibc does */
+	*pp = p;
+	return (0);
+}
 void vf_free (void *p, const char *func) {
 	struct obj *o = find_obj (p);
 	vf_log ("free %s %s", o != NULL ? o->name : "anon", func);
@@ -496,7 +524,14 @@ int vf_clock_gettime (int clk, struct timespec *ts) {
 }
 
 /* the interpreter brackets every API call so that stack-resident records can be invalidated */
-void vf_api_enter (void) { if (cur >= 0) { fibers[cur].call_seq++; fibers[cur].in_api = 1; } }
+/* Overwrite the stack area the coming API call will use with a junk pattern: an uninitialised local of the library
+   (say, an out-parameter that a failing posix_memalign leaves untouched) then holds 0xA5A5… and not whatever an
+   earlier frame happened to leave there (usually a convenient zero). */
+static void __attribute__ ((noinline)) scrub_stack (void) {
+	volatile char junk[12288]; size_t i;
+	for (i = 0; i != sizeof (junk); i++) { junk[i] = (char) 0xA5; }
+}
+void vf_api_enter (void) { if (cur >= 0) { fibers[cur].call_seq++; fibers[cur].in_api = 1; scrub_stack (); } }
 void vf_api_leave (void) {
 	int i;
 	if (cur < 0) { return; }
